@@ -111,10 +111,12 @@ Definition run (roots : list pid) (ops : list op) : event := fold_left step ops 
 
 (* ---- queries as one observable record, used by the correspondence check ---- *)
 Inductive query :=
-| QChildren (p : pid) | QParent (p : pid) | QLevel (n : Z) | QIter | QLen.
+| QChildren (p : pid) | QParent (p : pid) | QLevel (n : Z) | QIter | QLen
+| QState.   (* not a method: the harness reads roots / _all / _children directly *)
 
 Inductive answer :=
-| AErr | AList (l : list pid) | AOpt (o : option pid) | ANat (n : nat).
+| AErr | AList (l : list pid) | AOpt (o : option pid) | ANat (n : nat)
+| AState (roots all : list pid) (children : list (list nat)).
 
 Definition ask (e : event) (q : query) : answer :=
   match q with
@@ -123,6 +125,7 @@ Definition ask (e : event) (q : query) : answer :=
   | QLevel n => match get_from_level e n with None => AErr | Some l => AList l end
   | QIter => AList (iter e)
   | QLen => ANat (len e)
+  | QState => AState (ev_roots e) (ev_all e) (ev_children e)
   end.
 
 (* a history for the correspondence: interleaved adds (recording whether they were rejected)
@@ -138,4 +141,44 @@ Fixpoint run_history (e : event) (h : list hop) : list answer :=
       | Some e' => ANat (len e') :: run_history e' t
       end
   | HAsk q :: t => ask e q :: run_history e t
+  end.
+
+(* the state after an interleaved history: the read operations (HAsk) hand the event on unchanged *)
+Fixpoint state_after (e : event) (h : list hop) : event :=
+  match h with
+  | [] => e
+  | HAdd p cs :: t => state_after (step e (Add p cs)) t
+  | HAsk _ :: t => state_after e t
+  end.
+
+Definition adds_of (h : list hop) : list op :=
+  flat_map (fun o => match o with HAdd p cs => [Add p cs] | HAsk _ => [] end) h.
+
+(* comparison of the model's answers with the answers observed on the implementation, done inside
+   Coq so that a correspondence case prints one small value: None = every answer equal,
+   Some k = first differing position *)
+Fixpoint list_eqb {A} (eqb : A -> A -> bool) (l1 l2 : list A) : bool :=
+  match l1, l2 with
+  | [], [] => true
+  | x :: t, y :: u => eqb x y && list_eqb eqb t u
+  | _, _ => false
+  end.
+
+Definition answer_eqb (a b : answer) : bool :=
+  match a, b with
+  | AErr, AErr => true
+  | AList l, AList l' => list_eqb Nat.eqb l l'
+  | AOpt None, AOpt None => true
+  | AOpt (Some x), AOpt (Some y) => Nat.eqb x y
+  | ANat n, ANat m => Nat.eqb n m
+  | AState r a c, AState r' a' c' =>
+      list_eqb Nat.eqb r r' && list_eqb Nat.eqb a a' && list_eqb (list_eqb Nat.eqb) c c'
+  | _, _ => false
+  end.
+
+Fixpoint first_mismatch (xs ys : list answer) (k : nat) : option nat :=
+  match xs, ys with
+  | [], [] => None
+  | x :: xt, y :: yt => if answer_eqb x y then first_mismatch xt yt (S k) else Some k
+  | _, _ => Some k
   end.
